@@ -177,4 +177,22 @@ def histPathB (tol : Rat) (s0 : Skel) (uOut : Units) (d : List Rat) : Bool :=
 def histCableB (tol : Rat) (s0 : Skel) (uOut : Units) (c : Rat) : Bool :=
   relClose tol (c * uOut.phys.x) (cable ((physEdges s0).map elen))
 
+/-! ## the `add_units` decorator (`config.add_units = True`) -/
+
+/-- What a property wrapped in `@add_units(power=d)` reports for a raw value `raw` (a number in neuron units to the
+`d`-th power), as a physical quantity in metres^`d`: `raw * np.power(self.units, d)` — per axis for per-axis units
+(numpy broadcasts the unit array) —; for dimensionless neurons the raw value is returned as is (`phys = mag`).
+`to_compact()` only changes the prefix the quantity is written in. -/
+def addUnitsPhys (d : Nat) (u : Units) (raw : Rat) : V3 :=
+  ⟨raw * u.phys.x ^ d, raw * u.phys.y ^ d, raw * u.phys.z ^ d⟩
+
+/-- power of the length unit carried by a decorated property, from the *generated* decorator sites -/
+def addUnitsPower (cls prop : String) : Option Nat :=
+  (Gen.Units.addUnitsSites.find? (fun s => s.1 == cls && s.2.1 == prop)).map (fun s => s.2.2.2)
+
+/-- checker on the implementation's output: `q` = the reported quantity converted to base units (metres^d), per axis -/
+def addUnitsB (tol : Rat) (d : Nat) (u : Units) (raw : Rat) (q : V3) : Bool :=
+  let m := addUnitsPhys d u raw
+  relClose tol q.x m.x && relClose tol q.y m.y && relClose tol q.z m.z
+
 end Navis.Units
